@@ -191,6 +191,30 @@ def random_acts(rng, clients, locks, n):
     return acts
 
 
+def directed_acts(rng, clients, locks):
+    """behaviours steered into the corners of the rules, with random filling: a holder that stops prolonging and comes
+    back after the auto-unlock time, an answer that arrives later than half of it, a release by a non-holder"""
+    a, b = rng.sample(clients, 2)
+    l = rng.choice(locks)
+    everybody_applies = [['apply', c] for c in clients] * 2
+
+    def grab(c):
+        return [['tryAcquire', c, l], ['commit', c]] + everybody_applies
+    kind = rng.choice(['expired-own', 'late-answer', 'foreign-release', 'expired-other'])
+    acts = grab(a)
+    if kind == 'expired-own':
+        # nobody prolongs for longer than U; the former holder asks again, then somebody else does
+        acts += [['tick']] * (U + rng.randint(1, 3)) + grab(a) + grab(b) + [['tick']] + grab(a)
+    elif kind == 'expired-other':
+        acts += [['tick']] * (U + rng.randint(1, 3)) + grab(b) + grab(a)
+    elif kind == 'late-answer':
+        acts = [['tryAcquire', a, l]] + [['tick']] * (U // 2 + rng.randint(1, 2)) + [['commit', a]] + everybody_applies
+        acts += [['prolong', a], ['commit', a]] + everybody_applies + [['commit', a]] + everybody_applies + grab(b)
+    else:
+        acts += [['release', b, l], ['commit', b]] + everybody_applies + grab(b)
+    return acts + random_acts(rng, clients, locks, rng.randint(5, 30))
+
+
 def validate(traces, clients, locks, workdir, label):
     tf = os.path.join(workdir, label + '.json')
     with open(tf, 'w') as f:
@@ -229,6 +253,8 @@ def run(prop, tier, seed, out=print):
         rands = []
         for _ in range(150 if tier == 'quick' else 4000):
             rands.append(random_acts(rng, clients, locks, rng.randint(20, 90)))
+        for _ in range(60 if tier == 'quick' else 1500):
+            rands.append(directed_acts(rng, clients, locks))
         traces, sources = [], []
         for i, a in enumerate(sims):
             traces.append(execute(a, clients, locks))
